@@ -21,7 +21,7 @@ def _cfg(name, text):
 
 def gen_shapes(mode="ok", maxrows=3, simulate=None, depth=None, seed=None, timeout=600):
     """Bounded-exhaustive (or simulated) generation of row-shape sequences from Gen_RowParser."""
-    cons = "GenOk" if mode == "ok" else "GenClash"
+    cons = {"ok": "GenOk", "all": "GenAll"}.get(mode, "GenClash")
     cfg = _cfg(
         f"Gen_RowParser_{mode}_{maxrows}.cfg",
         f'SPECIFICATION GSpec\nCONSTANT MaxRows = {maxrows}\nCONSTANT Mode = "{mode}"\nCONSTRAINT {cons}\nCHECK_DEADLOCK FALSE\n',
